@@ -30,4 +30,4 @@ harness!(leaf_dtls_hvr, unwind = 4, h_dtls_hvr);
 harness!(leaf_dtls_fragment, unwind = 3, h_dtls_fragment);
 harness!(mod_dtls_client_hello, unwind = 4,
     stubs = [crate::tls_handshake::parse_cipher_suites => stub_cipher_suites, crate::tls_handshake::parse_compressions_algs => stub_compressions],
-    h_client_hello_mod::<_, 52, true>);
+    h_client_hello_mod::<_, 80, true>);
